@@ -114,6 +114,9 @@ def run_case(i, rng, tier):
                 fsp = S.set_at(sp, path, dict(node, qf="fault"))
                 h = S.build(fsp)
                 S.FAULT["mode"] = mode
+                S.FAULT["exc"] = rng.choice(S.FAULT_EXCEPTIONS) if mode == "raise" else None
+                if mode == "raise":
+                    sets.setdefault("exception_classes", set()).add(S.FAULT["exc"].__name__ if S.FAULT["exc"] else "InjectedFault")
                 survivors = []
                 wit = {"tree": S.describe(sp), "spec": sp, "stream": C.stream_json(stream), "failing_node": "/".join(path) or "<root>", "failing_kind": node["k"], "mode": mode, "positions": sorted(pat)}
                 run_fired = 0
@@ -220,6 +223,8 @@ def conclusive(agg):
         for mode in ("raise", "wrong", "wrong-np"):
             if not any(x.startswith("%s:%s:" % (k, mode)) for x in fk):
                 out.append("no fired fault in a %s quantity, mode %s" % (k, mode))
+    if len(agg.sets.get("exception_classes", ())) < 15:
+        out.append("fewer than 15 exception classes raised by the failing quantities")
     if not agg.counters.get("survivor_model_checks"):
         out.append("survivor model never evaluated")
     if not agg.counters.get("missing_field_fills"):
